@@ -225,6 +225,8 @@ def find_or_extend(item_list: list[T], key_func: Callable[[T], Hashable] = id) -
             pass
         else:
             for i in indices:
+                if i + len(items) > len(item_list):
+                    continue  # Runs off the end, zip() would silently truncate the comparison.
                 if all(
                     key_func(a) == key_func(b)
                     for a, b in
